@@ -36,7 +36,7 @@ ASSUMPTIONS = [
     "unvalidated small-order keys are only used where the true product is the identity",
 ]
 
-POOL = ["t257", "t251a", "SECP112r1", "SECP112r2", "NIST192p"]
+POOL = ["t257", "t257-twin", "t251a", "SECP112r1", "SECP112r2", "NIST192p"]
 
 
 class Mismatch(Exception):
